@@ -9,3 +9,5 @@ import Resvg.Props.C18
 #print axioms Resvg.Props.C18.C18_rewriting_scales_det
 #print axioms Resvg.Props.C18.C18_nonzero_box_keeps_invertible
 #print axioms Resvg.Props.C18.C18_zero_box_degenerate
+#print axioms Resvg.Props.C18.C18_shareable_chain_is_box_independent
+#print axioms Resvg.Props.C18.C18_old_sharing_rule_wrong
